@@ -1,9 +1,10 @@
 import Driver.ProgJson
 import Heph.Model.Check
+import Heph.Model.CondType
 /-! ops of the C01 family.
   `check.wt` {program export + "bt": {"any","void","boolean","char","string","integer": index into tt,
   "builtins": [indices]}} → {"r": "ok" | {"path": [...], "reason": tag, "detail": text},
-  "n": number of obligations, "tags": {tag: count}, "fail": [[path, tag, detail] …] (first 12 failures),
+  "n": number of obligations, "tags": {tag: count}, "fail": [[path, tag, detail, kinds] …] (first 12 failures),
   "nfail": number of failing obligations}. -/
 open Lean Heph Heph.Check
 namespace Driver.Check
@@ -20,7 +21,7 @@ def tally (tags : List String) : Json :=
   Json.mkObj (m.map fun p => (p.1, Json.num (JsonNumber.fromNat p.2)))
 
 def failJson (o : Ob) : Json :=
-  Json.arr #[ofStrList o.path, Json.str o.tag, Json.str o.j.detail]
+  Json.arr #[ofStrList o.path, Json.str o.tag, Json.str o.j.detail, Json.str o.j.kinds]
 
 def handle : Handler := fun op j =>
   match op with
@@ -41,6 +42,15 @@ def handle : Handler := fun op j =>
       let tbl ← parseTable j
       let lt ← parseLangTypes tbl j
       pure (res (Json.bool (asgB lt (← tyAt tbl j "s") (← tyAt tbl j "t")))))
+  | "check.condtype" => some (do
+      -- {tt, "tmp", "t", "f", "expect"} → {"same": model fold == recorded result, "upper": the result bounds both branches}
+      let tbl ← parseTable j
+      let tmp ← tyAt tbl j "tmp"
+      let t ← tyAt tbl j "t"
+      let f ← tyAt tbl j "f"
+      let out := condTypeTy tmp t f
+      let up := Ty.isSubtype t out == .yes && Ty.isSubtype f out == .yes
+      pure (res (Json.mkObj [("same", answerTy tbl j out), ("upper", Json.bool up)])))
   | _ => none
 
 end Driver.Check
